@@ -16,10 +16,17 @@ from core import Obligation, load_table, props_of_function
 WRITERS = {"secp256k1_sha256_write": (1, 2), "secp256k1_hmac_sha256_write": (1, 2)}   # (hash object arg, data arg)
 
 
-def _item(fn, e):
+def _item(fn, e, depth=0):
     r = lvalue_root(e)
     if r is not None and kind(r) == "var" and r[1] in fn.param_index:
         return "param%d(%s)" % (fn.param_index[r[1]], r[1])
+    if r is not None and kind(r) == "var" and depth < 4:
+        # a local pointer with a single definition rooted in a parameter is that parameter
+        v = fn.vars.get(r[1])
+        if v and v.get("ptr"):
+            defs = [(op, rhs, via) for el in fn.elems() for (n, op, rhs, via) in defs_in_elem(el.e) if n == r[1]]
+            if len(defs) == 1 and defs[0][0] == "=" and defs[0][2] in ("assign", "decl") and defs[0][1] is not None:
+                return _item(fn, defs[0][1], depth + 1)
     return "local"
 
 
@@ -100,9 +107,9 @@ def obligations(prog):
             ws = tr.get(fname, {}).get(h, [])
             have = {_pos_key(w[0]) for w in ws}
             if A not in have or B not in have:
-                # the transcript changed shape (item no longer absorbed into this state): the instance floor decides
-                obs.append(Obligation("R-ORD", oid, f.loc, fname, text, False,
-                                      "%s is no longer absorbed into %s in this function" % (A if A not in have else B, h)))
+                # the transcript changed shape (writes moved into a helper, item renamed): nothing to compare here;
+                # the instance floor decides whether too many precedences vanished
+                continue
             else:
                 la = [w[3] for w in ws if _pos_key(w[0]) == A]
                 lb = [w[3] for w in ws if _pos_key(w[0]) == B]
